@@ -373,8 +373,11 @@ def consistent(value, query, world):
     return True
 
 
+ONE = ("pos", "int", "one")          # the exponent 1 (a positive integer)
+
+
 def unsound_worlds(lv, meta, member, own, op, objects, extra=None,
-                   result=None):
+                   result=None, slot_worlds=None):
     """objects: {object text -> slot number | fixed world}; every tribool
     variable of a leaf must ask a known query about one of them.  `extra`
     (optional) maps the boolean atoms of a leaf to the world of one more
@@ -383,7 +386,9 @@ def unsound_worlds(lv, meta, member, own, op, objects, extra=None,
     definite answers that some attainable value of the node contradicts."""
     import itertools
     q_own = QUERIES[own]
-    slots = sorted({v for v in objects.values() if isinstance(v, int)})
+    slots = sorted({v for v in objects.values() if isinstance(v, int)}
+                   | {v[1] for v in objects.values()
+                      if isinstance(v, tuple) and v and v[0] == "derived"})
     for a, outs in lv:
         r = result_of(outs, member)
         if r not in ("T", "F"):
@@ -409,20 +414,50 @@ def unsound_worlds(lv, meta, member, own, op, objects, extra=None,
         if not ok:
             continue
         sigs = set()
-        for ws in itertools.product(WORLDS, repeat=len(slots)):
+        def world_of(s, wmap):
+            if isinstance(s, int):
+                return wmap[s]
+            if s and s[0] == "derived":
+                return s[2](wmap[s[1]])
+            return s
+
+        def ok_all(wmap):
+            for s, q, v in cons:
+                w = world_of(s, wmap)
+                if w is None:
+                    if v != "I":
+                        return False
+                    continue
+                if not consistent(v, q, w):
+                    return False
+            return True
+        pools = [(slot_worlds or {}).get(sl, WORLDS) for sl in slots]
+        for ws in itertools.product(*pools):
             wmap = dict(zip(slots, ws))
-            if not all(consistent(v, q, wmap[s] if isinstance(s, int) else s)
-                       for s, q, v in cons):
+            if not ok_all(wmap):
                 continue
             seq = ([first] if first else []) + list(ws)
             if result is not None:
                 # the caller computes the node's attainable worlds from the
                 # boolean atoms (signs of numeric coefficients) and the
                 # operand worlds; None = cannot interpret this leaf
-                rr = result(bools, list(ws))
+                rr = result(bools, dict(wmap))
                 if rr is None:
-                    break
-                seq, res = rr
+                    continue
+                if isinstance(rr, list):
+                    # alternatives (e.g. several possible coefficients): each
+                    # is attainable on its own; take the first that exposes
+                    # an unsound answer
+                    pick = None
+                    for seq_, res_ in rr:
+                        if any(q_own(w) != (r == "T") for w in res_):
+                            pick = (seq_, res_)
+                            break
+                    if pick is None:
+                        continue
+                    seq, res = pick
+                else:
+                    seq, res = rr
             else:
                 res = {seq[0]}
                 for w in seq[1:]:
@@ -433,3 +468,33 @@ def unsound_worlds(lv, meta, member, own, op, objects, extra=None,
             if bad and sg not in sigs:
                 sigs.add(sg)
                 yield a, r, seq, sorted(bad)[0]
+
+
+def world_pow(b, e):
+    """attainable worlds of b**e for an integer exponent world e (empty set =
+    no claim)"""
+    if len(e) == 3:                 # the exponent one
+        return {b}
+    if e == ("zero", "int"):
+        return {("pos", "int")} if b[0] not in ("inf",) else set()
+    if e[1] != "int" or e[0] not in ("pos", "neg") or b[0] == "inf":
+        return set()
+    if b[0] == "zero":
+        # 0**(negative integer) is the unsigned infinity
+        return {("zero", "int")} if e[0] == "pos" else {("inf", "inf")}
+    signs = {"pos": {"pos"}, "neg": {"pos", "neg"},
+             "nonreal": {"nonreal", "pos", "neg"}}[b[0]]
+    if e[0] == "pos":
+        kinds = {"int": {"int"}, "rat": {"rat"},
+                 "alg": {"int", "rat", "alg"}, "transc": {"transc"}}[b[1]]
+    else:
+        kinds = {"int": {"int", "rat"}, "rat": {"int", "rat"},
+                 "alg": {"int", "rat", "alg"}, "transc": {"transc"}}[b[1]]
+    out = set()
+    for s_ in signs:
+        for k in kinds:
+            if s_ == "nonreal":
+                out.add(("nonreal", "transc" if k == "transc" else "alg"))
+            else:
+                out.add((s_, k))
+    return out
